@@ -491,6 +491,11 @@ func (r *Run) Execute() {
 			r.StepLimit = true
 			return
 		}
+		if r.Mrp.Dead && !r.Mrp.Exited {
+			// died inside the disk seam (torn write): account for it as a kill
+			r.op("crash", fmt.Sprintf("mrp#%d died during a torn write at gate %d", r.Inc, r.Mrp.Gates))
+			vproc.Finish(r.Mrp, -1, syscall.SIGKILL)
+		}
 		parked := vrt.Parked()
 		if r.Mrp.Exited {
 			// let surviving job processes react (signal handlers) before deciding
